@@ -239,6 +239,28 @@ theorem Chip.run_congr16 (c : Chip) (h1 h2 : List PortOp) (h : congr16 h1 h2) : 
       rw [this]
       exact ih _ _ hst
 
+/-- … and amount to the same register writes -/
+theorem portWrites_congr16 (sel : Nat) (h1 h2 : List PortOp) (h : congr16 h1 h2) :
+    portWrites sel h1 = portWrites sel h2 := by
+  induction h1 generalizing sel h2 with
+  | nil => cases h2 with
+    | nil => rfl
+    | cons _ _ => cases h
+  | cons a s ih =>
+    cases h2 with
+    | nil => cases h
+    | cons b t =>
+      obtain ⟨hab, hst⟩ := h
+      cases a <;> cases b
+      · have hab' : _ % 16 = _ % 16 := hab
+        simp only [portWrites, hab']
+        exact ih _ _ hst
+      · cases hab
+      · cases hab
+      · cases hab
+        simp only [portWrites]
+        rw [ih _ _ hst]
+
 theorem Chip.ext' (a b : Chip) (h1 : a.currentReg = b.currentReg) (h2 : a.regs = b.regs) (h3 : a.ay = b.ay) :
     a = b := by
   cases a; cases b; simp_all
@@ -340,6 +362,61 @@ theorem AyZX.writeIo_hist (p : BitVec 16) (v : BitVec 8) (x : AyZX) :
   show (x.device p v).hist = _
   unfold AyZX.device
   cases writeDecode x.zx.cfg p <;> rfl
+
+/-! ### the ghost history does not depend on the chip or on the sample-generation oracle -/
+
+/-- the machine bus with the ghost history alone -/
+structure HistZX where
+  zx : ZX
+  hist : List PortOp := []
+
+/-- what a port write appends to the history -/
+def histStep (cfg : IoCfg) (p : BitVec 16) (v : BitVec 8) (hist : List PortOp) : List PortOp :=
+  match writeDecode cfg p with
+  | .aySelect => hist ++ [.select v]
+  | .ayData => hist ++ [.write v]
+  | _ => hist
+
+instance : Bus HistZX where
+  waitMreq a clk x := { x with zx := Bus.waitMreq a clk x.zx }
+  waitNoMreq a clk x := { x with zx := Bus.waitNoMreq a clk x.zx }
+  waitInternal clk x := { x with zx := Bus.waitInternal clk x.zx }
+  readInternal a x := ((Bus.readInternal a x.zx).1, { x with zx := (Bus.readInternal a x.zx).2 })
+  writeInternal a v x := { x with zx := Bus.writeInternal a v x.zx }
+  readIo p x := ((Bus.readIo p x.zx).1, { x with zx := (Bus.readIo p x.zx).2 })
+  writeIo p v x := { zx := Bus.writeIo p v x.zx, hist := histStep x.zx.cfg p v x.hist }
+  readInterrupt x := ((Bus.readInterrupt x.zx).1, { x with zx := (Bus.readInterrupt x.zx).2 })
+  reti x := { x with zx := Bus.reti x.zx }
+  halt on x := { x with zx := Bus.halt on x.zx }
+  intActive x := Bus.intActive x.zx
+  nmiActive x := Bus.nmiActive x.zx
+  pcCallback a x := { x with zx := Bus.pcCallback a x.zx }
+
+/-- forget chip and oracle -/
+def AyZX.toHist (x : AyZX) : HistZX := { zx := x.zx, hist := x.hist }
+
+theorem toHist_hom : BusHom AyZX.toHist where
+  waitMreq _ _ _ := rfl
+  waitNoMreq _ _ _ := rfl
+  waitInternal _ _ := rfl
+  readInternal _ _ := rfl
+  writeInternal _ _ _ := rfl
+  readIo _ _ := rfl
+  writeIo p v x := by
+    show HistZX.mk _ (histStep x.zx.cfg p v x.hist) = HistZX.mk _ (Bus.writeIo p v x).hist
+    rw [AyZX.writeIo_hist]; rfl
+  readInterrupt _ := rfl
+  reti _ := rfl
+  halt _ _ := rfl
+  intActive _ := rfl
+  nmiActive _ := rfl
+  pcCallback _ _ := rfl
+
+/-- the port history of a run is that of the run on the machine bus with the ghost alone: it depends
+on the program and the machine, not on the chip state or the oracle -/
+theorem run_hist (v : Variant) (n : Nat) (s : Cpu) (x : AyZX) :
+    (Z80.run v n (s, x)).2.hist = (Z80.run v n (s, x.toHist)).2.hist :=
+  (congrArg (fun r => r.2.hist) (toHist_hom.run v n s x)).symm
 
 /-! ### the invariant -/
 
